@@ -5,6 +5,7 @@ import ast
 from ..loader import norm, full, walk_local, walk_local_ordered
 from .. import util as U
 from ..symx import Poly, to_poly
+from .c05 import phys_in
 
 EXPLANATION = (
     'The beat<->second map of TempoClock is checked symbolically: every method that writes _tempo or _beat_dur (and '
@@ -142,25 +143,42 @@ def rule_affine(ctx):
         ctx.ob('C12.affine', f'{g.fq}', full(g.node).endswith(f'return {g.params[1]}'), 'non-tempo clocks: beats are seconds', g.node, mod)
 
 
+def self_closure(ctx, ci, f, depth=4):
+    return U.self_closure(ctx.repo, ci, f, depth)
+
+
+def _map_writes(f):
+    ss = [s for s in walk_local_ordered(f.node) if isinstance(s, ast.stmt)]
+    first_w = None
+    wpos = {}
+    for i, s in enumerate(ss):
+        if isinstance(s, ast.Assign):
+            for t in s.targets:
+                if U.is_self_attr(t) and t.attr in MAP_FIELDS:
+                    wpos.setdefault(t.attr, i)
+                    if first_w is None:
+                        first_w = i
+    return ss, first_w, wpos
+
+
 def rule_rebase(ctx):
     ctx.rule('C12.rebase', 'in tempo.setter/etempo every read of the old map precedes the first write to a map field; the '
                            'new base point (seconds, beats) lies on the old map; tempo is written after the base point; RT '
                            'mode notifies the clock thread')
     ci = tc(ctx)
     mod = ci.module
-    for f, pair in ((ci.setters['tempo'], ('beats2secs', '_base_seconds', '_base_beats')),
-                    (ci.methods['etempo'], ('secs2beats', '_base_beats', '_base_seconds'))):
-        ss = [s for s in walk_local_ordered(f.node) if isinstance(s, ast.stmt)]
-        first_w = None
-        wpos = {}
-        for i, s in enumerate(ss):
-            if isinstance(s, ast.Assign):
-                for t in s.targets:
-                    if U.is_self_attr(t) and t.attr in MAP_FIELDS:
-                        wpos.setdefault(t.attr, i)
-                        if first_w is None:
-                            first_w = i
-        ctx.require(first_w is not None, 'C12.rebase', f'{f.fq}: no map writes found')
+    PAIRS = (('beats2secs', '_base_seconds', '_base_beats'), ('secs2beats', '_base_beats', '_base_seconds'))
+    for f0, pairs in ((ci.setters['tempo'], PAIRS[:1]), (ci.methods['etempo'], PAIRS[1:])):
+        f = f0
+        ss, first_w, wpos = _map_writes(f)
+        if first_w is None:
+            # the entry delegates: judge the (single) self-callee that writes the map in its place; the
+            # logical-root clause below still speaks about the entry itself
+            callee = [m for m in self_closure(ctx, ci, f).values() if m is not f and _map_writes(m)[1] is not None]
+            ctx.require(len(callee) == 1, 'C12.rebase', f'{f.fq}: no map writes found')
+            f = callee[0]
+            pairs = PAIRS
+            ss, first_w, wpos = _map_writes(f)
         late = []
         for i, s in enumerate(ss):
             if i <= first_w:
@@ -175,20 +193,30 @@ def rule_rebase(ctx):
                         late.append(norm(n))
                     if isinstance(n, ast.Attribute) and U.is_self_attr(n, 'beats') and isinstance(n.ctx, ast.Load):
                         late.append('self.beats')
-        ctx.ob('C12.rebase', f'{f.fq}:old-map-read-first', not late,
+        ctx.ob('C12.rebase', f'{f0.fq}:old-map-read-first', not late,
                f'the old map is read after a map field was already overwritten: {late} (the new base point is computed with a half-updated map)', f.node, mod)
-        conv, fld_conv, fld_raw = pair
-        a_conv = [s for s in ss if isinstance(s, ast.Assign) and U.is_self_attr(s.targets[0], fld_conv)]
-        a_raw = [s for s in ss if isinstance(s, ast.Assign) and U.is_self_attr(s.targets[0], fld_raw)]
-        ok = len(a_conv) == 1 and len(a_raw) == 1 and isinstance(a_conv[0].value, ast.Call) and \
-            U.is_self_attr(a_conv[0].value.func, conv) and norm(a_conv[0].value.args[0]) == norm(a_raw[0].value)
-        ctx.ob('C12.rebase', f'{f.fq}:base-point-on-old-map', ok,
+        ok = False
+        for conv, fld_conv, fld_raw in pairs:
+            a_conv = [s for s in ss if isinstance(s, ast.Assign) and U.is_self_attr(s.targets[0], fld_conv)]
+            a_raw = [s for s in ss if isinstance(s, ast.Assign) and U.is_self_attr(s.targets[0], fld_raw)]
+            ok = ok or (len(a_conv) == 1 and len(a_raw) == 1 and isinstance(a_conv[0].value, ast.Call) and
+                        U.is_self_attr(a_conv[0].value.func, conv) and norm(a_conv[0].value.args[0]) == norm(a_raw[0].value))
+        conv, fld_conv, fld_raw = pairs[0]
+        ctx.ob('C12.rebase', f'{f0.fq}:base-point-on-old-map', ok,
                f'{fld_conv} must be {conv}(x) of the same x stored in {fld_raw} (continuity of the beat/second pair)', f.node, mod)
         ok = all(k in wpos for k in MAP_FIELDS) and wpos['_tempo'] > max(wpos['_base_seconds'], wpos['_base_beats']) and wpos['_beat_dur'] > wpos['_tempo']
-        ctx.ob('C12.rebase', f'{f.fq}:order', ok, f'write order must be base point, tempo, beat_dur; positions {wpos}', f.node, mod)
+        ctx.ob('C12.rebase', f'{f0.fq}:order', ok, f'write order must be base point, tempo, beat_dur; positions {wpos}', f.node, mod)
         src = full(f.node)
-        ok = U.before(src, 'self._beat_dur = ', 'if self.mode == _libsc3.main.NRT_MODE: return else: with self._sched_cond: self._sched_cond.notify()')
-        ctx.ob('C12.rebase', f'{f.fq}:notify', ok, 'after changing the map the RT clock thread is notified to recompute its deadline', f.node, mod)
+        ok = U.before(src, 'self._beat_dur = ', 'if self.mode == _libsc3.main.NRT_MODE: _libsc3.main._clock_scheduler.rekey(self) '
+                                                'else: with self._sched_cond: self._sched_cond.notify()')
+        ctx.ob('C12.rebase', f'{f0.fq}:notify', ok, 'after changing the map the pending tasks follow it: the RT clock thread is notified to '
+                                                     'recompute its deadline, the NRT queue is re-keyed', f.node, mod)
+    # the logical-time setters must not reach a physical-time read (tempo.setter / beats.setter act at the caller's logical time)
+    for f in (ci.setters['tempo'], ci.setters['beats']):
+        phys = [m.fq for m in self_closure(ctx, ci, f).values() if phys_in(m.node)]
+        ctx.ob('C12.rebase', f'{f.fq}:logical-root', not phys,
+               f'{f.fq} acts at the current logical time but reaches a physical-time read through {phys}: the map would '
+               f'depend on wake-up jitter in real-time mode', f.node, mod)
     f = ci.setters['beats']
     src = full(f.node)
     ok = U.before(src, 'seconds = _libsc3.main.current_tt._seconds', 'self._base_seconds = seconds', f'self._base_beats = {f.params[1]}') \
@@ -261,6 +289,9 @@ def run(ctx):
 
 
 MUTANTS = [
+    dict(rule='C12.rebase', name='tempo setter re-bases at elapsed time (seed C10-b)', file='sc3/base/clock.py',
+         old="        beats = self.beats\n        self._base_seconds = self.beats2secs(beats)\n        self._base_beats = beats\n        self._tempo = value\n        self._beat_dur = 1.0 / self._tempo\n        # en tempo_\n        mdl.NotificationCenter.notify(self, 'tempo')\n        if self.mode == _libsc3.main.NRT_MODE:\n            _libsc3.main._clock_scheduler.rekey(self)\n        else:\n            with self._sched_cond:\n                self._sched_cond.notify()  # NOTE: is notify_one in C++.\n",
+         new="        self.etempo(value)\n"),
     dict(rule='C12.inv', name='etempo forgets beat_dur', file='sc3/base/clock.py',
          old="        self._base_seconds = seconds\n        self._tempo = value\n        self._beat_dur = 1.0 / self._tempo\n", new="        self._base_seconds = seconds\n        self._tempo = value\n"),
     dict(rule='C12.inv', name='beat_dur computed before tempo', file='sc3/base/clock.py',
@@ -293,3 +324,7 @@ MUTANTS = [
 ]
 
 REPAIRS = []
+
+EQUIV = [
+    dict(name='rename local of tempo.setter', file='sc3/base/clock.py', start="    def tempo(self, value):\n        '''Set", end='    def etempo(self, value):', rename=[('beats', 'now_beats')]),
+]
